@@ -92,6 +92,10 @@ def ast_dir(root=None):
                     _prune_cache(keep=d)
             finally:
                 fcntl.flock(lk, fcntl.LOCK_UN)
+    try:
+        os.utime(d, None)  # in use: keep it away from the pruning of concurrent runs on other trees
+    except OSError:
+        pass
     _AST_DIR[root] = d
     return d
 
@@ -112,6 +116,26 @@ def _prune_cache(keep=None, n=8):
         pass
 
 
+def _rebuild_cache(root):
+    """the cache entry of this tree is damaged (pruned under us by a concurrent run): build it again"""
+    import fcntl
+
+    d = os.path.join(CACHE, "ast-" + tree_hash(root))
+    os.makedirs(CACHE, exist_ok=True)
+    with open(os.path.join(CACHE, ".lock"), "w") as lk:
+        fcntl.flock(lk, fcntl.LOCK_EX)
+        try:
+            tmp = d + ".tmp%d" % os.getpid()
+            subprocess.run(["rm", "-rf", tmp])
+            subprocess.run([ensure_astdump(), root, tmp], check=True)
+            subprocess.run(["rm", "-rf", d])
+            os.rename(tmp, d)
+        finally:
+            fcntl.flock(lk, fcntl.LOCK_UN)
+    _AST_DIR[root] = d
+    return d
+
+
 _FILES = {}
 
 
@@ -127,10 +151,19 @@ def load(path, root=None):
     if key in _FILES:
         return _FILES[key]
     p = os.path.join(ast_dir(root), path.replace("/", "__") + ".json")
+    if not os.path.exists(p) and os.path.exists(os.path.join(root, path)):
+        # the source exists but its dump is gone: a concurrent run on another tree pruned this cache entry
+        # between our lookup and now - rebuild it once
+        p = os.path.join(_rebuild_cache(root), path.replace("/", "__") + ".json")
     if not os.path.exists(p):
         raise AnchorLost("file %s is missing or does not parse" % path)
-    with open(p) as f:
-        d = json.load(f)
+    try:
+        with open(p) as f:
+            d = json.load(f)
+    except (OSError, ValueError):
+        p = os.path.join(_rebuild_cache(root), path.replace("/", "__") + ".json")
+        with open(p) as f:
+            d = json.load(f)
     _annotate(d)
     _FILES[key] = d
     return d
